@@ -274,7 +274,7 @@ func (r *Run) Finish(required ...string) int {
 		"seed":        r.Seed,
 		"level":       r.Level,
 		"coverage":    cov,
-		"assumptions": r.assumptions,
+		"assumptions": append([]string{"oracles and scripted peers of the harness are correct; Go runtime, net/http and protobuf-go are trusted"}, r.assumptions...),
 		"wall_s":      time.Since(r.start).Seconds(),
 		"violations":  r.nViolations,
 	}
